@@ -28,8 +28,12 @@ fn show_action(a: &Action) -> String {
         Action::Raise(x) => format!("raise:{x}"),
         Action::Shove(x) => format!("shove:{x}"),
         Action::Blind(x) => format!("blind:{x}"),
-        Action::Draw(h) => format!("draw:{}", u64::from(*h)),
+        Action::Draw(h) => { let h = *h; format!("draw:{}", word(move || u64::from(h))) }
     }
+}
+/// a real accessor used only to PRINT a value: its panic is printed as the word `panic`
+fn word(f: impl FnOnce() -> u64 + std::panic::UnwindSafe) -> String {
+    catch(f).map(|x| x.to_string()).unwrap_or_else(|| "panic".into())
 }
 fn show_turn(t: &Turn) -> String {
     match t {
@@ -40,7 +44,8 @@ fn show_turn(t: &Turn) -> String {
 }
 fn show_abs(a: &Abstraction) -> String {
     let v = match a { Abstraction::Percent(_) => 0, Abstraction::Learned(_) => 1, Abstraction::Preflop(_) => 2 };
-    format!("{}:{}", v, u64::from(*a))
+    let x = *a;
+    format!("{}:{}", v, word(move || u64::from(x)))
 }
 fn street_of(n: usize) -> Street { [Street::Pref, Street::Flop, Street::Turn, Street::Rive][n] }
 
@@ -133,7 +138,7 @@ fn main() {
     let deep = a.thorough();
     // the deck of this build (36 cards under --features shortdeck); values are built inside it,
     // generated STRINGS use all 52 card names in both builds
-    let full: u64 = u64::from(Hand::from(u64::MAX));
+    let full: u64 = catch(|| u64::from(Hand::from(u64::MAX))).unwrap_or((1u64 << 52) - 1);
     let short = is_shortdeck();
 
     // ------------------------------------------------------------ Unicode tables seen by the parsers
@@ -166,8 +171,7 @@ fn main() {
     // ------------------------------------------------------------ print → parse round trips
     // cards: all 52
     for c in 0u8..52 {
-        let card = Card::from(c);
-        roundtrip("card", &c.to_string(), catch(move || card.to_string()), &c.to_string(), &mut run);
+        roundtrip("card", &c.to_string(), catch(move || Card::from(c).to_string()), &c.to_string(), &mut run);
     }
     // streets
     for s in 0..4usize {
@@ -187,8 +191,11 @@ fn main() {
     for s in 0..4usize {
         for i in 0..4096usize {
             if i >= counts[s] && !deep && i % 7 != 0 && i < 4000 { continue; }
-            let ab = Abstraction::from((street_of(s), i));
-            roundtrip("abs", &u64::from(ab).to_string(), catch(move || ab.to_string()), &show_abs(&ab), &mut run);
+            let ab = match catch(move || Abstraction::from((street_of(s), i))) {
+                Some(ab) => ab,
+                None => { run.fail("printer-panics:abs", &format!("Abstraction::from((street {s}, {i}))"), "a value", "panic"); continue; }
+            };
+            roundtrip("abs", &word(move || u64::from(ab)), catch(move || ab.to_string()), &show_abs(&ab), &mut run);
             if i < counts[s] { run.count("roundtrip-abs(the 542 buckets)"); }
         }
     }
@@ -206,15 +213,19 @@ fn main() {
             if short && x.unsigned_abs() > 1500 && x.unsigned_abs() < 32700 { continue; }
             acts.push(Action::Call(x)); acts.push(Action::Raise(x)); acts.push(Action::Shove(x)); acts.push(Action::Blind(x));
         }
-        acts.push(Action::Draw(Hand::from(0u64)));
+        let mut draw = |run: &mut Run, acts: &mut Vec<Action>, raw: u64| match catch(move || Hand::from(raw)) {
+            Some(h) => acts.push(Action::Draw(h)),
+            None => run.fail("printer-panics:action", &format!("Hand::from({raw}u64)"), "a value", "panic"),
+        };
+        draw(&mut run, &mut acts, 0);
         for x in 0..52u64 {
-            acts.push(Action::Draw(Hand::from(1u64 << x)));
+            draw(&mut run, &mut acts, 1u64 << x);
             for y in (x + 1)..52 {
-                acts.push(Action::Draw(Hand::from(1u64 << x | 1 << y)));
-                for z in (y + 1)..52 { acts.push(Action::Draw(Hand::from(1u64 << x | 1 << y | 1 << z))); }
+                draw(&mut run, &mut acts, 1u64 << x | 1 << y);
+                for z in (y + 1)..52 { draw(&mut run, &mut acts, 1u64 << x | 1 << y | 1 << z); }
             }
         }
-        for _ in 0..2000 { let k = 4 + rng.below(49) as usize; acts.push(Action::Draw(Hand::from(rng.cards(k, full)))); }
+        for _ in 0..2000 { let k = 4 + rng.below(49) as usize; let raw = rng.cards(k, full); draw(&mut run, &mut acts, raw); }
         for act in acts {
             roundtrip("action", &show_action(&act), catch(move || act.to_string()), &show_action(&act), &mut run);
         }
@@ -224,16 +235,14 @@ fn main() {
         let nh = if deep { 100_000 } else { 20_000 };
         for i in 0..nh {
             let h = match i { 0 => 0, 1 => full, _ => { let k = rng.below(if i % 2 == 0 { 8 } else { 53 }) as usize; rng.cards(k, full) } };
-            let hand = Hand::from(h);
-            roundtrip("hand", &h.to_string(), catch(move || hand.to_string()), &h.to_string(), &mut run);
+            roundtrip("hand", &h.to_string(), catch(move || Hand::from(h).to_string()), &h.to_string(), &mut run);
         }
         for i in 0..52u64 {
             for j in (i + 1)..52 {
                 let h = 1u64 << i | 1 << j;
                 if h & !full != 0 { continue; }
-                let hole = Hole::from(Hand::from(h));
                 // Hole has no print op of its own in the model: its Display is the hand's
-                let p = catch(move || hole.to_string());
+                let p = catch(move || Hole::from(Hand::from(h)).to_string());
                 if let Some(p) = p {
                     let got = parse("hole", &p, &mut run);
                     run.spec_checked += 1;
@@ -241,8 +250,7 @@ fn main() {
                 } else { run.fail("printer-panics:hole", &format!("{h}"), "a string", "panic"); }
                 run.count("roundtrip-hole(all 1326)");
                 // all pre-flop observations
-                let o = Observation::from((Hand::from(h), Hand::from(0u64)));
-                roundtrip("obs", &format!("{h} 0"), catch(move || o.to_string()), &format!("{h} 0"), &mut run);
+                roundtrip("obs", &format!("{h} 0"), catch(move || Observation::from((Hand::from(h), Hand::from(0u64))).to_string()), &format!("{h} 0"), &mut run);
             }
         }
         let no = if deep { 400_000 } else { 40_000 };
@@ -250,8 +258,7 @@ fn main() {
             for _ in 0..no {
                 let p = rng.cards(2, full);
                 let b = rng.cards(nb, full & !p);
-                let o = Observation::from((Hand::from(p), Hand::from(b)));
-                roundtrip("obs", &format!("{p} {b}"), catch(move || o.to_string()), &format!("{p} {b}"), &mut run);
+                roundtrip("obs", &format!("{p} {b}"), catch(move || Observation::from((Hand::from(p), Hand::from(b))).to_string()), &format!("{p} {b}"), &mut run);
             }
         }
         // observations with 1 or 2 board cards exist as values but are not printable-and-parsable: shown, not required
@@ -259,10 +266,10 @@ fn main() {
             for _ in 0..50 {
                 let p = rng.cards(2, full);
                 let b = rng.cards(nb, full & !p);
-                let o = Observation::from((Hand::from(p), Hand::from(b)));
-                let s = o.to_string();
-                run.line(&format!("print-obs {p} {b}"), &hex(&s));
-                parse("obs", &s, &mut run);
+                match catch(move || Observation::from((Hand::from(p), Hand::from(b))).to_string()) {
+                    Some(s) => { run.line(&format!("print-obs {p} {b}"), &hex(&s)); parse("obs", &s, &mut run); }
+                    None => { run.line(&format!("print-obs {p} {b}"), "panic"); run.fail("printer-panics:obs", &format!("{p} {b}"), "a string", "panic"); }
+                }
                 run.count("obs-with-1-or-2-board-cards(rejected by design)");
             }
         }
@@ -303,7 +310,7 @@ fn main() {
 
     // ------------------------------------------------------------ overlaps and duplicates on every one of the 52 card names
     {
-        let name = |c: u64| Card::from(c as u8).to_string();
+        let name = |c: u64| catch(move || Card::from(c as u8).to_string()).unwrap_or_else(|| "??".into());
         let mut made: Vec<String> = vec![];
         for x in 0..52u64 {
             for nb in [3usize, 4, 5] {
@@ -334,22 +341,31 @@ fn main() {
         v
     };
     let mut seeds: Vec<String> = vec![];
-    for _ in 0..60 { seeds.push(Card::from(rng.below(52) as u8).to_string()); }
-    for _ in 0..60 { let k = rng.below(8) as usize; seeds.push(Hand::from(rng.cards(k, full)).to_string()); }
-    for _ in 0..40 { let k = rng.below(6) as usize; let h = Hand::from(rng.cards(k, full)); seeds.push(Vec::<Card>::from(h).iter().map(|c| c.to_string()).collect::<Vec<_>>().join(" ")); }
+    // (a Display that panics while the seeds are printed is reported once and the seed is skipped)
+    let mut seed = |run: &mut Run, seeds: &mut Vec<String>, what: &str, f: &mut dyn FnMut() -> String| {
+        match catch(std::panic::AssertUnwindSafe(|| f())) {
+            Some(s) => seeds.push(s),
+            None => run.fail("printer-panics:seed", what, "a string", "panic"),
+        }
+    };
+    for _ in 0..60 { let c = rng.below(52) as u8; seed(&mut run, &mut seeds, "card", &mut || Card::from(c).to_string()); }
+    for _ in 0..60 { let k = rng.below(8) as usize; let raw = rng.cards(k, full); seed(&mut run, &mut seeds, "hand", &mut || Hand::from(raw).to_string()); }
+    for _ in 0..40 { let k = rng.below(6) as usize; let raw = rng.cards(k, full); seed(&mut run, &mut seeds, "hand as cards", &mut || Vec::<Card>::from(Hand::from(raw)).iter().map(|c| c.to_string()).collect::<Vec<_>>().join(" ")); }
     for nb in [0usize, 3, 4, 5] {
         for _ in 0..40 {
             let p = rng.cards(2, full); let b = rng.cards(nb, full & !p);
-            seeds.push(Observation::from((Hand::from(p), Hand::from(b))).to_string());
+            seed(&mut run, &mut seeds, "observation", &mut || Observation::from((Hand::from(p), Hand::from(b))).to_string());
         }
     }
-    for s in 0..4 { seeds.push(street_of(s).to_string()); seeds.push(street_of(s).to_string().to_uppercase()); }
-    for _ in 0..60 { let s = rng.below(4) as usize; seeds.push(Abstraction::from((street_of(s), rng.below(300) as usize)).to_string()); }
-    for _ in 0..30 { seeds.push(Turn::Choice(rng.below(1000) as usize).to_string()); }
+    for s in 0..4 { seed(&mut run, &mut seeds, "street", &mut || street_of(s).to_string()); seed(&mut run, &mut seeds, "street", &mut || street_of(s).to_string().to_uppercase()); }
+    for _ in 0..60 { let s = rng.below(4) as usize; let i = rng.below(300) as usize; seed(&mut run, &mut seeds, "abstraction", &mut || Abstraction::from((street_of(s), i)).to_string()); }
+    for _ in 0..30 { let n = rng.below(1000) as usize; seed(&mut run, &mut seeds, "turn", &mut || Turn::Choice(n).to_string()); }
     seeds.push("XX".into()); seeds.push("??".into());
     for _ in 0..80 {
         let x = rng.range(-200, 32767) as i16;
-        seeds.push(match rng.below(7) { 0 => Action::Fold, 1 => Action::Check, 2 => Action::Call(x), 3 => Action::Raise(x), 4 => Action::Shove(x), 5 => Action::Blind(x), _ => { let k = rng.below(4) as usize; Action::Draw(Hand::from(rng.cards(k, full))) } }.to_string());
+        let kind = rng.below(7);
+        let raw = if kind >= 6 { let k = rng.below(4) as usize; rng.cards(k, full) } else { 0 };
+        seed(&mut run, &mut seeds, "action", &mut || match kind { 0 => Action::Fold, 1 => Action::Check, 2 => Action::Call(x), 3 => Action::Raise(x), 4 => Action::Shove(x), 5 => Action::Blind(x), _ => Action::Draw(Hand::from(raw)) }.to_string());
     }
     for s in &seeds { parse_all(s, &mut run); run.count("input:valid-seed"); }
     let nmut = if deep { 400_000 } else { 60_000 };
